@@ -22,6 +22,7 @@ import (
 	"github.com/cosmos/gogoproto/proto"
 
 	fxtypes "github.com/functionx/fx-core/v8/types"
+	crosschainkeeper "github.com/functionx/fx-core/v8/x/crosschain/keeper"
 	crosschaintypes "github.com/functionx/fx-core/v8/x/crosschain/types"
 
 	"fxverif/lib"
@@ -212,8 +213,24 @@ type hist struct {
 
 // editBridger: oracle i rotates its bridger through the real MsgServer.EditBridger; afterwards a fresh object
 // appears (nobody has confirmed it yet), so confirms from the released and from the new bridger both matter
-func (h *hist) editBridger() {
-	i := h.r.Intn(len(h.x.Oracles))
+func (h *hist) editBridger() { h.editBridgerOf(h.r.Intn(len(h.x.Oracles))) }
+
+// editBridgerConfirmed rotates the bridger of an oracle that has an oracle-set or batch confirm stored under its
+// current bridger (so that stored confirm names a bridger no record has any more)
+func (h *hist) editBridgerConfirmed() {
+	s := h.snapshot()
+	for i, o := range h.x.Oracles {
+		for _, c := range s.confs {
+			if c.kind != KCall && c.oracle == o.Oracle.Acc().String() && c.vBridger == o.Bridger.Acc().String() {
+				h.editBridgerOf(i)
+				return
+			}
+		}
+	}
+	h.editBridger()
+}
+
+func (h *hist) editBridgerOf(i int) {
 	o := h.x.Oracles[i]
 	h.edits++
 	nb := lib.EthKey(h.c.Seed, "bridger-rot/"+h.chain, i*100+h.edits)
@@ -765,6 +782,7 @@ func (h *hist) step(rep *lib.Report, stepNo int) stepResult {
 	}
 	_ = realCP
 
+	h.checkAttribution(rep, post, false, "after-confirm", replay)
 	for oa, o := range pre.oracles {
 		if pre.byBridger[o.BridgerAddress] != oa {
 			rep.Count("oracle record and by-bridger index disagree (state seen before a step)")
@@ -819,4 +837,137 @@ func errClass(err error) string {
 		return "panic"
 	}
 	return "other"
+}
+
+// ---------------------------------------------------------------- lifecycle: genesis export + import
+
+// checkAttribution: every stored confirm sits under an oracle whose registered external key is the one named in it,
+// names the object it is stored under and (verify=true) carries that key's signature over the stored object's checkpoint
+func (h *hist) checkAttribution(rep *lib.Report, s *snap, verify bool, where string, replay interface{}) {
+	for _, c := range s.confs {
+		rec, ok := s.oracles[c.oracle]
+		if !ok || rec.ExternalAddress != c.vExt {
+			rep.Fail(lib.Failure{Kind: "monitor", Sig: "C12/confirm-misattributed/" + where, Replay: replay,
+				What: fmt.Sprintf("%s: the %s confirm stored under oracle %q (registered external key %q) carries external address %s: not that oracle's confirmation", where, kindName[c.kind], c.oracle, rec.ExternalAddress, c.vExt)})
+			continue
+		}
+		if !verify {
+			continue
+		}
+		obj := s.find(c.kind, c.token, c.nonce)
+		sig, err := hex.DecodeString(c.vSig)
+		good := false
+		if obj != nil && obj.obj != nil && err == nil && len(sig) >= 65 {
+			for mask := 0; mask < 8 && !good; mask++ {
+				if a, rok := ownRecover(h.chain, keccak(EncodeMask(obj.obj, s.gid, mask)), ownNormalise(sig)); rok && a == rec.ExternalAddress {
+					good = true
+				}
+			}
+		}
+		if !good {
+			rep.Fail(lib.Failure{Kind: "monitor", Sig: "C12/stored-confirm-bad-signature/" + where, Replay: replay,
+				What: fmt.Sprintf("%s: the %s confirm stored under oracle %s does not carry that oracle's signature over the stored object", where, kindName[c.kind], c.oracle)})
+		}
+	}
+}
+
+// exportImport: the real ExportGenesis, every key of the module store deleted, the real InitGenesis - a chain restart
+// from exported state.  Returns the Coq case (state before, confirm stores after).
+func (h *hist) exportImport(rep *lib.Report, stepNo int) string {
+	pre := h.snapshot()
+	replay := map[string]interface{}{"history": h.id, "chain": h.chain, "seed": h.c.Seed, "step": stepNo, "op": "export-import", "log": append([]string{}, h.log...)}
+	err := h.c.Try(func(ctx sdk.Context) error {
+		gs := crosschainkeeper.ExportGenesis(ctx, h.x.Keeper)
+		store := ctx.KVStore(h.c.App.GetKey(h.chain))
+		var keys [][]byte
+		it := store.Iterator(nil, nil)
+		for ; it.Valid(); it.Next() {
+			keys = append(keys, append([]byte{}, it.Key()...))
+		}
+		it.Close()
+		for _, k := range keys {
+			store.Delete(k)
+		}
+		crosschainkeeper.InitGenesis(ctx, h.x.Keeper, gs)
+		return nil
+	})
+	h.log = append(h.log, fmt.Sprintf("export-import err=%v", err))
+	rep.Case(fmt.Sprintf("h%d/%d/import", h.id, stepNo), true)
+	if err != nil {
+		rep.Count("export-import: " + errClass(err))
+		rep.Fail(lib.Failure{Kind: "harness", Sig: "C12/export-import-error", What: "ExportGenesis/InitGenesis failed: " + err.Error()})
+		return ""
+	}
+	post := h.snapshot()
+	// outgoing bridge calls (and their confirms) are not part of the exported genesis on this tree (C05-2): documented, no alarm
+	kept := h.accepted[:0]
+	for _, m := range h.accepted {
+		if m.kind != KCall {
+			kept = append(kept, m)
+		}
+	}
+	h.accepted = kept
+	// ---- monitor: after the restart every stored confirm is still that oracle's own, verified, and was there before ----
+	h.checkAttribution(rep, post, true, "after-import", replay)
+	had := map[string]storedConf{}
+	for _, c := range pre.confs {
+		had[string(c.rawKey)] = c
+	}
+	dropped := len(pre.confs)
+	for _, c := range post.confs {
+		o, ok := had[string(c.rawKey)]
+		if !ok || o.vSig != c.vSig || o.vExt != c.vExt || o.vBridger != c.vBridger {
+			rep.Fail(lib.Failure{Kind: "monitor", Sig: "C12/import-invented-confirm", Replay: replay,
+				What: fmt.Sprintf("after export/import the %s confirm under oracle %q (nonce %d) is not a confirm that was stored there before", kindName[c.kind], c.oracle, c.nonce)})
+		} else {
+			dropped--
+		}
+	}
+	rep.Count("export-import: ok")
+	if dropped > 0 {
+		rep.Count("export-import: confirms not carried over (bridge-call confirms; confirms whose bridger was rotated away)")
+	}
+	return fmt.Sprintf("mk_imp_case %s %s", h.coqState(pre), lib.List(h.coqConfs(post)))
+}
+
+// reuseProbe: oracle X confirms through bridger b, rotates to a fresh bridger, oracle Y then takes over the released
+// account b, and the module is restarted from exported genesis.  InitGenesis resolves a confirm's owner by the bridger
+// written in it, so X's confirm is filed under Y (model: C12_import_misattributes_after_bridger_reuse).  Needs a
+// genesis restart with pending confirms AND a released bridger account re-bound to another oracle: reported as an
+// observation, not generated in the histories, no alarm.
+func reuseProbe(rep *lib.Report, seed int64) {
+	c := lib.NewChain(seed, 1, nil)
+	x := c.X("eth")
+	x.SetupOracles([]int64{10000, 10000, 10000})
+	lib.Must(c.NextBlock())
+	h := &hist{id: -1, chain: "eth", c: c, x: x, r: lib.NewRand(seed), ids: map[string]int64{}}
+	pre := h.snapshot()
+	set := pre.find(KSet, "", 1)
+	if set == nil || set.obj == nil {
+		return
+	}
+	X, Y := x.Oracles[0], x.Oracles[1]
+	sig := ownSign(false, keccak(Encode(set.obj, pre.gid, true)), X.External)
+	b := X.Bridger
+	if err := h.exec(stepPlan{msg: confirmMsg{kind: KSet, nonce: 1, bridger: b.Acc().String(), external: X.ExtAddr, sigHex: hex.EncodeToString(sig)}}); err != nil {
+		return
+	}
+	h.editBridgerOf(0)
+	if err := c.Try(func(ctx sdk.Context) error {
+		_, err := x.Msg().EditBridger(ctx, &crosschaintypes.MsgEditBridger{ChainName: "eth", OracleAddress: Y.Oracle.Acc().String(), BridgerAddress: b.Acc().String()})
+		return err
+	}); err != nil {
+		return
+	}
+	tmp := lib.NewReport("C12")
+	h.exportImport(tmp, 0)
+	for _, f := range tmp.Failures {
+		if strings.HasPrefix(f.Sig, "C12/confirm-misattributed") {
+			addNote(rep, "observation (lifecycle corner, no alarm): after oracle X confirmed through bridger b, rotated away from b, and oracle Y took over the released account b, a restart from exported genesis files X's confirm under Y "+
+				"(InitGenesis resolves the owner by the bridger written in the confirm): "+f.What+" - model witness C12_import_misattributes_after_bridger_reuse; guard of C12_import_sound")
+			rep.Count("probe: bridger reuse + genesis restart misattributes a confirm")
+			return
+		}
+	}
+	rep.Count("probe: bridger reuse + genesis restart keeps attribution")
 }
